@@ -36,7 +36,7 @@ COMBOS = [
 
 
 def n_cases(tier):
-    return 240 if tier == "quick" else 4000
+    return 200 if tier == "quick" else 4000
 
 
 def budget_s(tier):
@@ -94,6 +94,7 @@ def sample_view(case):
 def observe(tt, names):
     from fontTools.pens.recordingPen import RecordingPen
     gs = tt.getGlyphSet()
+    cff1 = tt["CFF "].cff.topDictIndex[0].CharStrings if "CFF " in tt else None
     out = {}
     for n in names:
         rec = RecordingPen()
@@ -101,6 +102,10 @@ def observe(tt, names):
         cyc = R.recording_to_cycles(rec.value)
         out[n] = {"strict": R.canon_drawing(cyc), "merged": R.canon_drawing(cyc, merge=True),
                   "raw": rec.value, "adv": tt["hmtx"][n][0]}
+        if cff1 is not None:
+            cs = cff1[n]
+            cs.draw(RecordingPen())
+            out[n]["cswidth"] = cs.width     # the charstring's own width operand (CFF 1 only)
     return out
 
 
@@ -189,6 +194,12 @@ def run(case):
                     violations.append({"mech": "advance_differs", "detail": {
                         "glyph": n, "combos": [list(ref_key), list(k)],
                         "advances": [a["adv"], b["adv"]]}})
+                for side, key in ((a, ref_key), (b, k)):
+                    if "cswidth" in side and side["cswidth"] != side["adv"] and not side.get("_rep"):
+                        side["_rep"] = True
+                        violations.append({"mech": "charstring_width_differs_from_hmtx", "detail": {
+                            "glyph": n, "combo": list(key), "hmtx": side["adv"],
+                            "charstring": side["cswidth"]}})
                 if a["merged"] != b["merged"]:
                     violations.append({"mech": "drawing_differs", "detail": {
                         "glyph": n, "combos": [list(ref_key), list(k)],
